@@ -43,7 +43,19 @@ let str_res = function
   | RPanic -> "panic"
   | RNum n -> "n:" ^ str_of_n0 n
   | RBool b -> if b then "b:true" else "b:false"
-  | RDrain (n, l) -> "drain:" ^ str_of_n0 n ^ ":" ^ str_list str_of_n l
+  | RDrain (cnt0, l0) ->
+      (* the caller's vector: the extracted Vec.drain_observed is run on the twelve vectors the
+         harness uses (0-2 previous elements tagged 200.., 0-3 spare places); what is printed is
+         what that model reports (count, values appended, previous contents intact) *)
+      let cnt = ref cnt0 and app = ref l0 and bad = ref false in
+      List.iter (fun k -> List.iter (fun spare ->
+          let prev = List.init k (fun i -> n_of_int (200 + i)) in
+          match drain_observed prev (n_of_int spare) cnt0 l0 with
+          | Some ((c, l), intact) ->
+              if c <> cnt0 || l <> l0 then (cnt := c; app := l);
+              if not intact then bad := true
+          | None -> bad := true) [0; 1; 2; 3]) [0; 1; 2];
+      "drain:" ^ str_of_n0 !cnt ^ ":" ^ str_list str_of_n !app ^ (if !bad then ":CORRUPT" else "")
   | RBlocked -> "blocked"
   | RUnit -> "unit"
   | RInvalid -> "invalid"
